@@ -1,14 +1,18 @@
 //go:build verif
 
 // Verification harness (injected by /verif/run.sh through a build overlay; not part of the repository).
-// Access only (C19): a read-only view of the pool's in-memory fields and database keys, and the
-// reactor's wire codec. Nothing here decides a property and nothing in the repository calls it.
+// Access only (C19): a read-only view of the pool's in-memory fields and database keys, the reactor's
+// wire codec, and a deep-clone helper. Nothing here decides a property and nothing in the repository calls it.
 
 package evidence
 
 import (
+	"sync/atomic"
 	"time"
 
+	"github.com/kardiachain/go-kardia/kai/kaidb"
+	"github.com/kardiachain/go-kardia/kai/state/cstate"
+	"github.com/kardiachain/go-kardia/lib/clist"
 	"github.com/kardiachain/go-kardia/types"
 )
 
@@ -55,3 +59,23 @@ func VerifC19Keys(p *Pool) (pending, committed []string) {
 // before AddEvidence).
 func VerifC19EncodeMsg(evis []types.Evidence) ([]byte, error) { return encodeMsg(evis) }
 func VerifC19DecodeMsg(bz []byte) ([]types.Evidence, error)   { return decodeMsg(bz) }
+
+// VerifC19Clone is a deep-clone helper for the explicit-state search: a pool with the same in-memory
+// fields as p over other (copied) databases. The checker validates clones against replayed histories.
+func VerifC19Clone(p *Pool, stateDB cstate.Store, evidenceDB kaidb.Database, blockStore BlockStore) *Pool {
+	c := &Pool{
+		logger:        p.logger,
+		evidenceList:  clist.New(),
+		blockStore:    blockStore,
+		stateDB:       stateDB,
+		evidenceDB:    evidenceDB,
+		state:         p.State(),
+		pruningHeight: p.pruningHeight,
+		pruningTime:   p.pruningTime,
+	}
+	atomic.StoreUint32(&c.evidenceSize, p.Size())
+	for e := p.evidenceList.Front(); e != nil; e = e.Next() {
+		c.evidenceList.PushBack(e.Value)
+	}
+	return c
+}
